@@ -117,7 +117,40 @@ def havoc_callback(I, fval, args, e, env):
                 sec.fields[k] = Vec(old.segs + [Seg(n2, lambda j, f=f, base=base: Sc(f(base + j)))])
         inner.fields["constraints"] = Opaque("constraints'")
         inner.fields["pending_multiplier"] = Opaque("pending'")
-    I.trace.add("user", {"tr": inner.fields["transcript"], "where": FX.short(e.get("sp"))})
+    # which transcript does user code inside the callback act on?  ask the wrapper's own API:
+    # cs.transcript() and cs.challenge_scalar(..) (evaluated on the wrapper value, effects discarded)
+    tr_user = inner.fields["transcript"]
+    tr_chal = inner.fields["transcript"]
+    wpath = w.path
+    try:
+        m_tr = [p_ for p_ in I.F.fns if p_.startswith("<" + wpath) and p_.endswith("ConstraintSystem<<G as ark_ec::AffineRepr>::ScalarField>>::transcript")]
+        m_ch = [p_ for p_ in I.F.fns if p_.startswith("<" + wpath) and p_.endswith(">::challenge_scalar")]
+        from .alg import Ref
+
+        box = [w]
+        wref = Ref(lambda: box[0], lambda nv: box.__setitem__(0, nv), "wrapper")
+        if m_tr:
+            old = I.sub_trace()
+            try:
+                r_ = I.deref(I.call_fn(m_tr[0], [wref]))
+                if isinstance(r_, Tr):
+                    tr_user = r_
+            finally:
+                I.trace = old
+        if m_ch:
+            old = I.sub_trace()
+            try:
+                I.call_fn(m_ch[0], [wref, Bytes([("lit", b"probe")])])
+                ops = [it[1] for it in I.trace.items if it[0] == "op"]
+                if ops:
+                    tr_chal = ops[0]["tr"]
+                    key = (tr_chal.root().id, b"probe")
+                    I.chal_count.pop(key, None)
+            finally:
+                I.trace = old
+    except Unanalysable:
+        pass
+    I.trace.add("user", {"tr": tr_user, "tr_challenge": tr_chal, "where": FX.short(e.get("sp"))})
     return Opaque("result", ok=UNIT, desc="callback-error")
 
 
